@@ -526,24 +526,7 @@ Proof. induction l as [|[t v] r IH]; cbn [ipoe_msg_type]; [reflexivity|]. safe_t
 Lemma l2tp_dispatch_ppp_total cfg frame : safe (l2tp_dispatch_ppp Repaired cfg frame).
 Proof. unfold l2tp_dispatch_ppp. safe_tac; apply handle_frame_total. Qed.
 
-(* ---------------- the driver-level statement ---------------- *)
-Lemma run_total entry na ba : safe (run Repaired entry na ba).
-Proof.
-  unfold run. cbv zeta.
-  repeat (match goal with |- safe (if ?c then _ else _) => destruct c end;
-          [first [reflexivity | apply safe_rmap;
-           first [apply ppp_hdr_total|apply handle_frame_total|apply ppp_parse_options_total|apply pap_req_total
-                 |apply pap_msg_total|apply chap_challenge_total|apply chap_response_total|apply echo_tail_total
-                 |apply parse_tags_total|apply l2tp_parse_total|apply parse_avps_total|apply is_l2tpv3_total
-                 |apply parse_message6_total|apply unwrap_relay_top_total|apply unwrap_relay_reply_top_total
-                 |apply relay_unwrap_reply_total|apply relay_txid_total|apply insert_option82_total
-                 |apply strip_option82_total|apply set_option4_total|apply get_option4_total
-                 |apply parse_sub82_total|apply dhcp_parse_total|apply parse_message4_total
-                 |apply attr80_window_total|apply is_authentic_reply_total|apply validate_request_auth_total
-                 |apply validate_message_auth_total|apply l2tp_dispatch_ppp_total]
-            | cbv zeta; safe_tac; first [apply handle_frame_total|apply has_service_type_total|apply event_timestamp_total|apply ipoe_msg_type_total]]|]).
-  reflexivity.
-Qed.
+
 
 (* ---------------- the defect and its repair ---------------- *)
 Lemma handle_frame_refuted :
@@ -972,3 +955,72 @@ Lemma ipv6_wellformed_nonvacuous :
   frame_admissible Repaired (mk_dcfg true true true) 87 [1; 2; 3] (Ok RNone) /\
   handle_frame Repaired (mk_dcfg true true true) 87 [1; 2; 3] = Ok (RIPv6 [1; 2; 3]).
 Proof. repeat split; try (vm_compute; reflexivity). right. repeat split; vm_compute; reflexivity. Qed.
+
+(* ---------------- L2TP datagram dispatch and guarded AVP value decoders ---------------- *)
+Lemma decode_u16_guarded a : 2 <= lenN (a_value a) -> safe (decode_u16 a).
+Proof. intros H. unfold decode_u16. safe_tac. Qed.
+Lemma decode_u16_unguarded_panics : exists a, decode_u16 a = Panic.
+Proof. exists (mkAvp true false 0 9 [7]). vm_compute. reflexivity. Qed.
+Lemma decode_msg_type_total l : safe (decode_msg_type l).
+Proof.
+  unfold decode_msg_type. destruct l as [|a r]; [reflexivity|].
+  destruct (negb (a_vendor a =? 0) || negb (a_type a =? 0) || (lenN (a_value a) <? 2)) eqn:E; [reflexivity|].
+  apply decode_u16_guarded. lia.
+Qed.
+Lemma sccrq_extract_total l : safe (sccrq_extract l).
+Proof.
+  unfold sccrq_extract. apply safe_bind; [apply decode_msg_type_total|]. intros mt _.
+  destruct (negb (mt =? 1)); [reflexivity|].
+  destruct (find_first 0 7 l) as [a7|]; [|reflexivity].
+  destruct (find_first 0 9 l) as [a9|]; [|reflexivity].
+  destruct (lenN (a_value a9) <? 2) eqn:E; [reflexivity|].
+  apply safe_bind; [apply decode_u16_guarded; lia|]. intros tid _.
+  destruct (find_first 0 11 l); reflexivity.
+Qed.
+Lemma peer_rws_total l : safe (peer_rws l).
+Proof.
+  unfold peer_rws. destruct (find_first 0 10 l) as [a10|]; [|reflexivity].
+  destruct (2 <=? lenN (a_value a10)) eqn:E; [apply decode_u16_guarded; lia|reflexivity].
+Qed.
+Lemma l2tp_dispatch_total auth b : safe (l2tp_dispatch auth b).
+Proof.
+  unfold l2tp_dispatch. apply safe_bind; [apply is_l2tpv3_total|]. intros v3 _.
+  destruct v3; [reflexivity|].
+  pose proof (l2tp_parse_total b) as Hp.
+  destruct (l2tp_parse b) as [[h payload]| | |]; try reflexivity; try discriminate Hp.
+  destruct (negb (h_ver h =? 2)); [reflexivity|].
+  destruct (negb (h_ctrl h)).
+  - destruct ((h_tid h =? 7) && (h_sid h =? 9)); [|reflexivity].
+    pose proof (l2tp_dispatch_ppp_total (mk_dcfg true false false) payload) as Hd.
+    destruct (l2tp_dispatch_ppp Repaired (mk_dcfg true false false) payload); try reflexivity; discriminate Hd.
+  - pose proof (parse_avps_total payload) as Ha.
+    destruct (parse_avps payload) as [avps| | |]; try reflexivity; try discriminate Ha.
+    apply safe_bind; [apply decode_msg_type_total|]. intros mt _.
+    destruct (negb (mt =? 1)); [reflexivity|].
+    destruct (find_first 0 7 avps) as [ha|]; [|reflexivity].
+    destruct (negb (if list_eq_dec N.eq_dec (a_value ha) auth then true else false)); [reflexivity|].
+    apply safe_bind.
+    { destruct (find_first 0 9 avps) as [a9|]; [|reflexivity].
+      destruct (2 <=? lenN (a_value a9)) eqn:E; [apply decode_u16_guarded; lia|reflexivity]. }
+    intros _ _. apply safe_bind; [apply sccrq_extract_total|]. intros c _.
+    apply safe_bind; [destruct c; [apply peer_rws_total|reflexivity]|]. intros; reflexivity.
+Qed.
+
+(* ---------------- the driver-level statement ---------------- *)
+Lemma run_total entry na ba : safe (run Repaired entry na ba).
+Proof.
+  unfold run. cbv zeta.
+  repeat (match goal with |- safe (if ?c then _ else _) => destruct c end;
+          [first [reflexivity | apply safe_rmap;
+           first [apply ppp_hdr_total|apply handle_frame_total|apply ppp_parse_options_total|apply pap_req_total
+                 |apply pap_msg_total|apply chap_challenge_total|apply chap_response_total|apply echo_tail_total
+                 |apply parse_tags_total|apply l2tp_parse_total|apply parse_avps_total|apply is_l2tpv3_total
+                 |apply parse_message6_total|apply unwrap_relay_top_total|apply unwrap_relay_reply_top_total
+                 |apply relay_unwrap_reply_total|apply relay_txid_total|apply insert_option82_total
+                 |apply strip_option82_total|apply set_option4_total|apply get_option4_total
+                 |apply parse_sub82_total|apply dhcp_parse_total|apply parse_message4_total
+                 |apply attr80_window_total|apply is_authentic_reply_total|apply validate_request_auth_total
+                 |apply validate_message_auth_total|apply l2tp_dispatch_ppp_total|apply l2tp_dispatch_total]
+            | cbv zeta; safe_tac; first [apply handle_frame_total|apply has_service_type_total|apply event_timestamp_total|apply ipoe_msg_type_total]]|]).
+  reflexivity.
+Qed.
